@@ -146,6 +146,7 @@ def run(ctx: Ctx) -> None:
     T.t_p1(ctx, "3/T.P1")
     T.t_e1(ctx, "4/T.E1")
     T.t_s1(ctx, "5/T.S1")
+    T.t_s1c(ctx, "5c/T.S1c")
     is_occupied_rule(ctx, "6")
     reentrancy_rule(ctx, "7")
     occupied_bounce(ctx, "8")
